@@ -99,3 +99,66 @@ async def tls_conversation(coalesce: bool, cuts=None, chunk1: bool = False):
     ok = len(auth) == 1 and auth[0][1][:1] == b"\x00" and len(ping) == 1 and ping[0][1][:1] == b"\x00"
     await a.finish()
     return dict(ok=ok, detail=(auth, ping), pings=1)
+
+
+class TlsPeer:
+    """a logged-in client over in-memory TLS: `send(payload_packets)` encrypts and feeds, `recv()` returns the decrypted bytes
+    the server has written so far"""
+
+    def __init__(self, sess, **server_kw):
+        self.sess = sess
+        self.srv = mkserver([sess], ssl=server_ctx(), **server_kw)
+        self.a = Peer(self.srv)
+        self.cl = TlsClient()
+        self.caps = BASE | C.CLIENT_SSL
+        self.plain = b""
+
+    async def login(self, extra_caps=0) -> bool:
+        a, cl = self.a, self.cl
+        await a.greet()
+        self.caps = int(BASE | C.CLIENT_SSL) | int(extra_caps)
+        a.t.feed(pkt(1, ssl_request(self.caps)))
+        await settle()
+        a.t.feed(cl.hello())
+        done = False
+        for _ in range(20):
+            await settle()
+            raw = a.take_raw()
+            if raw:
+                cl.inc.write(raw)
+            try:
+                cl.so.do_handshake()
+                done = True
+                break
+            except ssl.SSLWantReadError:
+                d = cl.outg.read()
+                if d:
+                    a.t.feed(d)
+        if not done:
+            return False
+        d = cl.outg.read()
+        if d:
+            a.t.feed(d)
+        self.send(pkt(2, hs_response("u", caps=self.caps)))
+        await settle()
+        auth = split_packets(self.recv())
+        return len(auth) == 1 and auth[0][1][:1] == b"\x00"
+
+    def send(self, b: bytes):
+        self.cl.so.write(b)
+        self.a.t.feed(self.cl.outg.read())
+
+    def recv(self) -> bytes:
+        raw = self.a.take_raw()
+        if raw:
+            self.cl.inc.write(raw)
+        out = b""
+        while True:
+            try:
+                d = self.cl.so.read(1 << 20)
+            except ssl.SSLWantReadError:
+                break
+            if not d:
+                break
+            out += d
+        return out
